@@ -25,4 +25,10 @@ theorem align_formula (a k : Nat) :
 theorem span_constants : Generated.params.validSpan = true := Instances.valid_span
 
 example : (SpanSt.init 2048 1000).p ≤ (SpanSt.init 2048 1000).n := by decide
+/-- GC safety of what the decoder allocates: each of its 6 allocation sites passes the size, the
+    alignment and the GC type of one and the same type node; `newTType` gives a GC type to exactly the
+    kinds that can hold pointers (array, map, pointer, slice, string, struct), and `tDecoder.Malloc`
+    sends every typed request to `mallocgc` (zeroed, scanned) — only string / binary bytes and
+    pointer-free element arrays come from the span (regenerated facts about decoder.go, ttype.go) -/
+theorem gc_typed_allocation : Generated.facts.typedAllocation = true := Instances.facts_typedAllocation
 end Frugal.C06
